@@ -273,6 +273,9 @@ def u_ptera_name_error(c):
     if st != "ok":
         return
     c.prove("identifies-the-variable-and-the-function", e.fields.get("varname") == "x" and e.fields.get("function") is fn)
+    # ... in its message as well (what the user reads when the call fails there)
+    msg = e.exc_args[0] if getattr(e, "exc_args", None) else None
+    c.prove("message-names-the-variable", isinstance(msg, str) and "'x'" in msg, note=repr(msg))
     st, inf = run(it, it.getattr(e, "info"), [])
     c.prove("info/exposes-the-recorded-entry", st == "ok" and (inf is entry if state == 0 else inf == {}), note=f"{inf!r}")
     # the entry is kept by the error itself: it survives the removal of the table when the probe ends before the error is looked at
